@@ -179,7 +179,9 @@ func (api *API) mapEncodeStructFields(
 			fieldType := sField.fType
 			if fieldValue.Kind() == reflect.Ptr {
 				if fieldValue.IsNil() {
-					continue
+					// the fields of an embedded struct are part of the parent: leaving them out would produce an encoding
+					// that the decoder (which always expects them) can not read back
+					return ierrors.Errorf("embedded field %s is a nil pointer", sField.name)
 				}
 				fieldValue = fieldValue.Elem()
 				fieldType = fieldType.Elem()
